@@ -3,6 +3,9 @@
   SM-SIGN   every scalar-multiplication sibling (variable base, fixed base, simultaneous, GLS; 128 functions) honours the sign of
             each scalar parameter on every path that returns a point computed from it: sign test (also of a copy or of the
             sub-scalars of a decomposition), reduction modulo the order, or delegation to a sibling ("all scalars ... negative")
+  PAR-SIGN  the signed curve parameter's low digit is never used as a whole multiplier without its sign being consulted
+            (expected count zero on today's tree; kept alive by its miniature)
+  LOOP-BITS a bit scan of a scalar is bounded by that scalar's length
   OUT-RBW   no coordinate of an output point is read before it was written on every path (the suite calls addition, doubling and
             normalisation in place, where a read of the output's own coordinate goes unnoticed)
   ALIAS-RW  no coordinate of an input point is read in a later statement than a write of that coordinate of an output point
@@ -45,6 +48,9 @@ def analyse(ctx, prog, chk):
     fam = family(prog)
     ns = expsib.rule_sm_sign(ctx, prog, chk, fam, FAM)
     nb = expsib.rule_loop_bits(ctx, prog, chk, fam)
+    npar = expsib.rule_par_sign(ctx, prog, chk, lambda fn: fn.rfile.startswith("src/epx/"))
+    if npar == 0:
+        chk.ok("PAR-SIGN", "src/epx", "none", "no function of the module uses the low digit of the signed curve parameter as a whole multiplier (the rule is exercised by its miniature)")
     nr = alias.rule_out_rbw(ctx, prog, chk, lambda fn: fn.rfile.startswith("src/epx/"), re.compile(r"^ep\d+_t\b"))
     na = alias.rule(ctx, prog, chk, lambda fn: fn.rfile.startswith("src/epx/"), POINT_ALIAS_OK, points=True)[0]
     nc = c02.rule_const_in(ctx, prog, chk, prefix=("src/epx/",))
